@@ -38,6 +38,8 @@ func runC10(c *Ctx) {
 	rulePresenceFlags(c, "C10.12")
 	ruleEOFJudgedByParse(c, "C10.13")
 	ruleScannerWhitespace(c, "C10.14")
+	ruleNextStopsAtEOF(c, "C10.15")
+	ruleNoGlobalState(c, "C10.16", "sql", "engine")
 }
 
 // ---- C10.1 --------------------------------------------------------------------
